@@ -69,6 +69,15 @@ type rec struct {
 	Deleted  []int64 `json:"deleted"`
 	Win      []winr  `json:"win"`
 	RanNow   bool    `json:"rannow"` // epoch-start processing ran in this block
+	// queries about the current block
+	CurNext      int64 `json:"curnext"`      // GetCurrentNextEpoch()
+	CurNextPanic bool  `json:"curnextpanic"` // ... panicked
+	NextCur      int64 `json:"nextcur"`      // GetNextEpoch(height)
+	NextCurErr   bool  `json:"nextcurerr"`
+	IsStart      bool  `json:"isstart"`      // IsEpochStart()
+	EsCur        int64 `json:"escur"`        // GetEpochStartForBlock(height)
+	Prev         int64 `json:"prev"`         // GetPreviousEpochStartForBlock(height)
+	PrevErr      bool  `json:"preverr"`
 	Beh      int     `json:"beh"`
 	Step     int     `json:"step"`
 }
@@ -136,6 +145,21 @@ func snapshot(c *chainx.Chain, r *rec) {
 			Bts: chainx.ClampU(bts), BtsErr: err3 != nil, Ran: len(k.GetEpochHash(ctx, b)) > 0})
 	}
 	r.RanNow = k.GetEpochStart(ctx) == h
+	func() {
+		defer func() {
+			if x := recover(); x != nil {
+				r.CurNextPanic = true
+			}
+		}()
+		r.CurNext = chainx.ClampU(k.GetCurrentNextEpoch(ctx))
+	}()
+	nc, errn := k.GetNextEpoch(ctx, h)
+	r.NextCur, r.NextCurErr = chainx.ClampU(nc), errn != nil
+	r.IsStart = k.IsEpochStart(ctx)
+	ec, _, _ := k.GetEpochStartForBlock(ctx, h)
+	r.EsCur = chainx.ClampU(ec)
+	pv, errp := k.GetPreviousEpochStartForBlock(ctx, h)
+	r.Prev, r.PrevErr = chainx.ClampU(pv), errp != nil
 }
 
 func propose(c *chainx.Chain, key string, v int64) chainx.TxResult {
